@@ -1,0 +1,260 @@
+//go:build verif
+
+package auth
+
+// Contracts for property C02 (no document content is disclosed outside the reader's channels):
+// the channel-authorisation primitives of roles and users. Comment-only; read by /verif/engine.
+
+//@ props C02 C03
+
+// ---- readers (pure: their SMT definition is derived from the real body) ----
+
+// the channel set that counts: nil while the principal's channels are invalidated
+//@ func CollectionAccess.Channels
+//@   pure
+//@ func CollectionAccess.CanSeeChannel
+//@   pure
+//@ func roleImpl.Channels
+//@   pure
+//@ func roleImpl.getCollectionAccess
+//@   pure
+
+//@ props C02
+
+// ---- specification vocabulary (from the property statement) ----
+
+// the all-channels wildcard (a pred because a parameter called "channels" hides the package name in a contract)
+//@ pred starCh() string
+//@   is channels.UserStarChannel
+
+// sees(S, c): channel c, or the all-channels wildcard, is in the valid channel set S
+//@ pred setSees(s channels.TimedSet, c string) bool
+//@   is (c in s) || (channels.UserStarChannel in s)
+
+// a role (or the user's own grants) sees channel c of the collection
+//@ pred roleSeesColl(r *roleImpl, scope string, coll string, c string) bool
+//@   is ite(base.IsDefaultCollection(scope, coll), setSees(r.Channels(), c), (coll in r.CollectionsAccess[scope]) && setSees(r.CollectionsAccess[scope][coll].Channels(), c))
+
+//@ func roleImpl.canSeeChannel
+//@   ensures[never-fails] isNilErr(result1)
+//@   ensures[sees]        result0 <==> role == nil || setSees(role.Channels(), channel)
+
+//@ func roleImpl.CanSeeCollectionChannel
+//@   ensures[never-fails] isNilErr(result1)
+//@   ensures[sees]        result0 <==> role == nil || roleSeesColl(role, scope, collection, channel)
+
+// ---- errors ----
+
+// UnauthError: the guest user (empty name) gets the package's "login required" error, everybody else the
+// error passed in. (errLoginRequired is a *base.HTTPError variable; boxed into an error it is never nil.)
+//@ func roleImpl.UnauthError
+//@   requires role != nil
+//@   ensures[guest]   role.Name_ == "" ==> dynType(result) == typeTag(*base.HTTPError) && unbox(result, *base.HTTPError) == errLoginRequired
+//@   ensures[other]   role.Name_ != "" ==> result == err
+//@   ensures[non-nil] !isNilErr(err) ==> !isNilErr(result)
+
+// ---- principals behind the Principal / Role / User interfaces ----
+
+// The roles a user inherits from: the list userImpl.GetRoles resolves (see the trusted contract of GetRoles).
+//@ fn userRoles(u *userImpl) []Role
+//@ fn rolesLoadErr(u *userImpl) error
+
+//@ pred rolesWF(u *userImpl) bool
+//@   is forall i int :: {userRoles(u)[i]} 0 <= i && i < len(userRoles(u)) ==> dynType(userRoles(u)[i]) == typeTag(*roleImpl) && unbox(userRoles(u)[i], *roleImpl) != nil
+
+// userSees(u, c) = sees(u, c) or some role of u sees c
+//@ pred userSeesColl(u *userImpl, scope string, coll string, c string) bool
+//@   is roleSeesColl(u.roleImpl, scope, coll, c) ||
+//@      (exists i int :: {userRoles(u)[i]} 0 <= i && i < len(userRoles(u)) && roleSeesColl(unbox(userRoles(u)[i], *roleImpl), scope, coll, c))
+
+// the same for a principal held in an interface value (closed world: *roleImpl and *userImpl are the only implementations)
+//@ pred princSees(p Principal, scope string, coll string, c string) bool
+//@   is ite(dynType(p) == typeTag(*roleImpl), roleSeesColl(unbox(p, *roleImpl), scope, coll, c), userSeesColl(unbox(p, *userImpl), scope, coll, c))
+
+// authorised(p, chs): some channel of chs is seen; for an empty set: the wildcard is seen
+// (emptiness is len(chs) == 0, the test the code uses; the map model of the verifier does not derive
+// "no keys" from it outside functions that call len, so it is not restated with a quantifier)
+//@ pred princAuthAny(p Principal, scope string, coll string, chs base.Set) bool
+//@   is ite(len(chs) == 0, princSees(p, scope, coll, starCh()), exists c string :: {c in chs} (c in chs) && princSees(p, scope, coll, c))
+
+// the roles of the principal can be loaded (always true of a role)
+//@ pred princRolesLoad(p Principal) bool
+//@   is dynType(p) == typeTag(*roleImpl) || isNilErr(rolesLoadErr(unbox(p, *userImpl)))
+
+// an auth.User value that holds a (non-nil) *userImpl: what Authenticator.GetUser / NewUser hand out
+//@ pred userIfaceWF(p Principal) bool
+//@   is dynType(p) == typeTag(*userImpl) && unbox(p, *userImpl) != nil
+
+//@ pred princWF(p Principal) bool
+//@   is (dynType(p) == typeTag(*roleImpl) && unbox(p, *roleImpl) != nil) || (dynType(p) == typeTag(*userImpl) && unbox(p, *userImpl) != nil)
+
+// ---- role loading (TRUSTED) ----
+
+// GetRoles resolves the user's role names through the authenticator (storage reads) and caches the list in
+// user.roles / user.deletedRoles. Assumed: (1) for one user object it yields the same list (or the same
+// failure) on every call made during one authorisation decision -- the cache is filled once and is only
+// reset by setRolesSince, which no function under contract calls; (2) every element is a non-nil *roleImpl
+// (GetRoleIncDeleted builds them with &roleImpl{...} and nil results are skipped); (3) apart from the two
+// cache fields, which no other function reads, nothing reachable from the contracts is written.
+//@ props C02 C03
+//@ func userImpl.GetRoles
+//@   trusted
+//@   modifies user.roles, user.deletedRoles
+//@   ensures result1 == rolesLoadErr(user)
+//@   ensures isNilErr(result1) ==> result0 == userRoles(user) && rolesWF(user)
+//@ props C02
+
+// ---- dispatch contracts of the interface methods (TRUSTED) ----
+// Each one only restates, per dynamic receiver type, the contract of the concrete method that the call
+// dispatches to (verified below or above); *roleImpl and *userImpl are the only implementations of
+// Principal in non-test code (and *CollectionAccess the third implementation of PrincipalCollectionAccess).
+
+//@ extern func github.com/couchbase/sync_gateway/auth.Principal.canSeeChannel
+//@   modifies userImpl.roles, userImpl.deletedRoles
+//@   ensures[role] dynType(recv) == typeTag(*roleImpl) ==> isNilErr(result1) && (result0 <==> unbox(recv, *roleImpl) == nil || roleSeesColl(unbox(recv, *roleImpl), base.DefaultScope, base.DefaultCollection, channel))
+//@   ensures[user] dynType(recv) == typeTag(*userImpl) ==> (isNilErr(result1) ==> (result0 <==> userSeesColl(unbox(recv, *userImpl), base.DefaultScope, base.DefaultCollection, channel)))
+//@   ensures[user-err] dynType(recv) == typeTag(*userImpl) ==> isNilErr(result1) || (!result0 && result1 == rolesLoadErr(unbox(recv, *userImpl)))
+
+//@ props C02 C03
+//@ extern func github.com/couchbase/sync_gateway/auth.PrincipalCollectionAccess.Channels
+//@   ensures[role] dynType(recv) == typeTag(*roleImpl) ==> result == unbox(recv, *roleImpl).Channels()
+//@   ensures[user] dynType(recv) == typeTag(*userImpl) ==> result == unbox(recv, *userImpl).roleImpl.Channels()
+//@   ensures[coll] dynType(recv) == typeTag(*CollectionAccess) ==> result == unbox(recv, *CollectionAccess).Channels()
+//@ props C02
+
+//@ extern func github.com/couchbase/sync_gateway/auth.Principal.UnauthError
+//@   ensures[non-nil] !isNilErr(err) ==> !isNilErr(result)
+
+// ---- default collection ----
+
+// Access to any of the channels (default collection), for a role or a user behind the Principal interface.
+// For an empty channel set the code asks princ.canSeeChannel("*"), i.e. the wildcard held directly or through a
+// role (wildcard-exact). Before the fix of finding F9 it consulted princ.Channels() only -- the principal's own
+// grants -- and refused a user who holds "*" only through a role (demonstration:
+// /verif/findings/F9_wildcard_through_role_test.go).
+//@ func authorizeAnyChannel
+//@   requires princWF(princ)
+//@   modifies userImpl.roles, userImpl.deletedRoles
+//@   ensures[granted-only-if] isNilErr(result) ==> princAuthAny(princ, base.DefaultScope, base.DefaultCollection, channels)
+//@   ensures[granted-if]      len(channels) != 0 && princRolesLoad(princ) && princAuthAny(princ, base.DefaultScope, base.DefaultCollection, channels) ==> isNilErr(result)
+//@   ensures[wildcard-exact]  len(channels) == 0 && princRolesLoad(princ) ==> (isNilErr(result) <==> princSees(princ, base.DefaultScope, base.DefaultCollection, starCh()))
+//@   loop 1 invariant[none-yet] forall c string :: {c in #visited} (c in #visited) ==> !princSees(princ, base.DefaultScope, base.DefaultCollection, c)
+//@   loop 1 invariant[set-kept] (forall k string :: {k in channels} (k in channels) <==> old(k in channels)) && len(channels) == old(len(channels))
+
+// ---- roles ----
+
+// authorised(r, chs) for a role
+//@ pred roleAuthAny(r *roleImpl, scope string, coll string, chs base.Set) bool
+//@   is ite(len(chs) == 0, roleSeesColl(r, scope, coll, starCh()), exists c string :: {c in chs} (c in chs) && roleSeesColl(r, scope, coll, c))
+
+//@ func roleImpl.authorizeAnyChannel
+//@   requires role != nil
+//@   ensures[granted-only-if] isNilErr(result) ==> roleAuthAny(role, base.DefaultScope, base.DefaultCollection, channels)
+//@   ensures[granted-if]      roleAuthAny(role, base.DefaultScope, base.DefaultCollection, channels) ==> isNilErr(result)
+
+// A role is authorised for a channel set iff it sees one of the channels (the wildcard, for an empty set).
+//@ func roleImpl.AuthorizeAnyCollectionChannel
+//@   requires role != nil
+//@   ensures[granted-iff] isNilErr(result) <==> roleAuthAny(role, scope, collection, channels)
+//@   loop 1 invariant[none-yet] forall c string :: {c in #visited} (c in #visited) ==> !roleSeesColl(role, scope, collection, c)
+
+// ---- users ----
+
+//@ extern func github.com/couchbase/sync_gateway/auth.CollectionChannelAPI.CanSeeCollectionChannel
+//@   modifies userImpl.roles, userImpl.deletedRoles
+//@   ensures[role] dynType(recv) == typeTag(*roleImpl) ==> isNilErr(result1) && (result0 <==> unbox(recv, *roleImpl) == nil || roleSeesColl(unbox(recv, *roleImpl), scope, collection, channel))
+//@   ensures[user] dynType(recv) == typeTag(*userImpl) ==> (isNilErr(result1) ==> (result0 <==> userSeesColl(unbox(recv, *userImpl), scope, collection, channel)))
+//@   ensures[user-err] dynType(recv) == typeTag(*userImpl) ==> isNilErr(result1) || (!result0 && result1 == rolesLoadErr(unbox(recv, *userImpl)))
+
+//@ extern func github.com/couchbase/sync_gateway/auth.CollectionChannelAPI.AuthorizeAnyCollectionChannel
+//@   modifies userImpl.roles, userImpl.deletedRoles
+//@   ensures[role] dynType(recv) == typeTag(*roleImpl) && unbox(recv, *roleImpl) != nil ==> (isNilErr(result) <==> roleAuthAny(unbox(recv, *roleImpl), scope, collection, channels))
+//@   ensures[user-granted-only-if] userIfaceWF(recv) ==> (isNilErr(result) ==> userAuthAny(unbox(recv, *userImpl), scope, collection, channels))
+//@   ensures[user-granted-if]      userIfaceWF(recv) ==> (len(channels) != 0 && isNilErr(rolesLoadErr(unbox(recv, *userImpl))) && userAuthAny(unbox(recv, *userImpl), scope, collection, channels) ==> isNilErr(result))
+//@   ensures[user-granted-if-wildcard-named] userIfaceWF(recv) ==> (!base.IsDefaultCollection(scope, collection) && len(channels) == 0 && isNilErr(rolesLoadErr(unbox(recv, *userImpl))) && userAuthAny(unbox(recv, *userImpl), scope, collection, channels) ==> isNilErr(result))
+//@   ensures[user-default-wildcard-exact]    userIfaceWF(recv) ==> (base.IsDefaultCollection(scope, collection) && len(channels) == 0 && isNilErr(rolesLoadErr(unbox(recv, *userImpl))) ==> (isNilErr(result) <==> userSeesColl(unbox(recv, *userImpl), scope, collection, starCh())))
+//@   ensures[user-granted-if-wildcard-default] userIfaceWF(recv) ==> (base.IsDefaultCollection(scope, collection) && len(channels) == 0 && isNilErr(rolesLoadErr(unbox(recv, *userImpl))) && userAuthAny(unbox(recv, *userImpl), scope, collection, channels) ==> isNilErr(result))
+
+// A user sees a channel iff the user's own grants or one of the user's roles see it (userSees of the property).
+//@ func userImpl.canSeeChannel
+//@   requires user != nil
+//@   modifies userImpl.roles, userImpl.deletedRoles
+//@   ensures[sees]     isNilErr(result1) ==> (result0 <==> userSeesColl(user, base.DefaultScope, base.DefaultCollection, channel))
+//@   ensures[load-err] isNilErr(result1) || (!result0 && result1 == rolesLoadErr(user))
+//@   loop 1 invariant[roles]    roles == userRoles(user) && rolesWF(user) && isNilErr(rolesLoadErr(user))
+//@   loop 1 invariant[own]      !roleSeesColl(user.roleImpl, base.DefaultScope, base.DefaultCollection, channel)
+//@   loop 1 invariant[none-yet] forall j int :: {userRoles(user)[j]} 0 <= j && j <= #index ==> !roleSeesColl(unbox(userRoles(user)[j], *roleImpl), base.DefaultScope, base.DefaultCollection, channel)
+
+//@ func userImpl.CanSeeCollectionChannel
+//@   requires user != nil
+//@   modifies userImpl.roles, userImpl.deletedRoles
+//@   ensures[sees]     isNilErr(result1) ==> (result0 <==> userSeesColl(user, scope, collection, channel))
+//@   ensures[load-err] isNilErr(result1) || (!result0 && result1 == rolesLoadErr(user))
+//@   loop 1 invariant[roles]    roles == userRoles(user) && rolesWF(user) && isNilErr(rolesLoadErr(user))
+//@   loop 1 invariant[own]      !roleSeesColl(user.roleImpl, scope, collection, channel)
+//@   loop 1 invariant[none-yet] forall j int :: {userRoles(user)[j]} 0 <= j && j <= #index ==> !roleSeesColl(unbox(userRoles(user)[j], *roleImpl), scope, collection, channel)
+
+// authorised(u, chs) of the property: some channel of the set is seen by the user or one of its roles;
+// for a revision without channels, the all-channels wildcard is.
+//@ pred userAuthAny(u *userImpl, scope string, coll string, chs base.Set) bool
+//@   is ite(len(chs) == 0, userSeesColl(u, scope, coll, starCh()), exists c string :: {c in chs} (c in chs) && userSeesColl(u, scope, coll, c))
+
+//@ func userImpl.authorizeAnyChannel
+//@   requires user != nil
+//@   modifies userImpl.roles, userImpl.deletedRoles
+//@   ensures[granted-only-if] isNilErr(result) ==> userAuthAny(user, base.DefaultScope, base.DefaultCollection, channels)
+//@   ensures[granted-if]      len(channels) != 0 && isNilErr(rolesLoadErr(user)) && userAuthAny(user, base.DefaultScope, base.DefaultCollection, channels) ==> isNilErr(result)
+//@   ensures[wildcard-exact]  len(channels) == 0 && isNilErr(rolesLoadErr(user)) ==> (isNilErr(result) <==> userSeesColl(user, base.DefaultScope, base.DefaultCollection, starCh()))
+
+// The access decision of the property, both directions:
+//   granted-only-if     a nil result implies authorised(u, chs)                      (no disclosure)
+//   granted-if          authorised(u, chs) implies a nil result, provided the user's roles can be loaded
+//                       ("conversely ... always readable"), for non-empty channel sets
+//   granted-if-wildcard-named / -default   the same for a revision that is in no channel: readable through
+//                       the wildcard, held directly or through a role. The -default clause did not hold before
+//                       the fix of finding F9 (authorizeAnyChannel looked at the user's own Channels() only, so a
+//                       user holding "*" only through a role was refused a revision without channels in the default
+//                       collection while being granted it in a named one); FIXED in auth/role.go, demonstration:
+//                       /verif/findings/F9_wildcard_through_role_test.go. default-wildcard-exact states the
+//                       repaired behaviour: granted iff the user sees "*" (own or through a role, roles loaded).
+//@ func userImpl.AuthorizeAnyCollectionChannel
+//@   requires user != nil
+//@   modifies userImpl.roles, userImpl.deletedRoles
+//@   ensures[granted-only-if]     isNilErr(result) ==> userAuthAny(user, scope, collection, channels)
+//@   ensures[granted-if]          len(channels) != 0 && isNilErr(rolesLoadErr(user)) && userAuthAny(user, scope, collection, channels) ==> isNilErr(result)
+//@   ensures[granted-if-wildcard-named]   !base.IsDefaultCollection(scope, collection) && len(channels) == 0 && isNilErr(rolesLoadErr(user)) && userAuthAny(user, scope, collection, channels) ==> isNilErr(result)
+//@   ensures[default-wildcard-exact]      base.IsDefaultCollection(scope, collection) && len(channels) == 0 && isNilErr(rolesLoadErr(user)) ==> (isNilErr(result) <==> userSeesColl(user, scope, collection, starCh()))
+//@   ensures[granted-if-wildcard-default] base.IsDefaultCollection(scope, collection) && len(channels) == 0 && isNilErr(rolesLoadErr(user)) && userAuthAny(user, scope, collection, channels) ==> isNilErr(result)
+//@   loop 1 invariant[own-none-yet] forall c string :: {c in #visited} (c in #visited) ==> !roleSeesColl(user.roleImpl, scope, collection, c)
+//@   loop 2 invariant[roles]    roles == userRoles(user) && rolesWF(user) && isNilErr(rolesLoadErr(user)) && !base.IsDefaultCollection(scope, collection)
+//@   loop 2 invariant[set-kept] (forall k string :: {k in channels} (k in channels) <==> old(k in channels)) && len(channels) == old(len(channels))
+//@   loop 2 invariant[own]      !roleAuthAny(user.roleImpl, scope, collection, channels)
+//@   loop 2 invariant[none-yet] forall j int :: {userRoles(user)[j]} 0 <= j && j <= #index ==> !roleAuthAny(unbox(userRoles(user)[j], *roleImpl), scope, collection, channels)
+
+// ---- access to ALL channels of a set (used by the principal API; same vocabulary) ----
+
+//@ extern func github.com/couchbase/sync_gateway/auth.newErrNotAllowedChannels[[]string]
+//@   inert
+//@   ensures[non-nil] !isNilErr(result)
+
+//@ func newErrUnauthorizedChannels
+//@   ensures[non-nil] !isNilErr(result)
+
+//@ func authorizeAllChannels
+//@   requires princWF(princ)
+//@   modifies userImpl.roles, userImpl.deletedRoles
+//@   ensures[granted-only-if] isNilErr(result) ==> (forall c string :: {c in channels} (c in channels) ==> princSees(princ, base.DefaultScope, base.DefaultCollection, c))
+//@   ensures[granted-if]      princRolesLoad(princ) && (forall c string :: {c in channels} (c in channels) ==> princSees(princ, base.DefaultScope, base.DefaultCollection, c)) ==> isNilErr(result)
+//@   loop 1 invariant[all-so-far] forbidden == nil <==> (forall c string :: {c in #visited} (c in #visited) ==> princSees(princ, base.DefaultScope, base.DefaultCollection, c))
+//@   loop 1 invariant[set-kept]   forall k string :: {k in channels} (k in channels) <==> old(k in channels)
+//@   loop 1 invariant[visited-in] forall c string :: {c in #visited} (c in #visited) ==> (c in channels)
+
+//@ func roleImpl.authorizeAllChannels
+//@   requires role != nil
+//@   ensures[granted-iff] isNilErr(result) <==> (forall c string :: {c in channels} (c in channels) ==> roleSeesColl(role, base.DefaultScope, base.DefaultCollection, c))
+
+//@ func roleImpl.authorizeAllCollectionChannels
+//@   requires role != nil
+//@   ensures[granted-iff] isNilErr(result) <==> (base.IsDefaultCollection(scope, collection) || (collection in role.CollectionsAccess[scope])) && (forall c string :: {c in channels} (c in channels) ==> roleSeesColl(role, scope, collection, c))
+//@   loop 1 invariant[all-so-far] forbidden == nil <==> (forall c string :: {c in #visited} (c in #visited) ==> roleSeesColl(role, scope, collection, c))
+//@   loop 1 invariant[visited-in] forall c string :: {c in #visited} (c in #visited) ==> (c in channels)
